@@ -74,6 +74,9 @@ class DefUse:
                                             'Lt', 'Le', 'Gt', 'Ge', 'Eq', 'Ne', 'BitAnd', 'BitOr', 'BitXor', 'Shl', 'Shr',
                                             'Not', 'Neg', 'Len', 'Offset'):
                         out.add(('op', m.group(1), bid))
+                        for part in m.group(2).split(', '):
+                            if part.strip().startswith('const '):
+                                out.add(('const', part.strip()))
                     for l2 in locals_in(rhs):
                         stack.append(l2)
                 else:
